@@ -38,7 +38,10 @@ Apply(ee, l) ==
                         [ev |-> WrFrame(4116, 0, <<129 + NodeId, 0, 0, 0>>), e |-> ee,
                          x |-> IF ~SdoOK(ee.mode) THEN << <<"cb", "canrx", SdoRx>> >>
                                ELSE IF ee.valid THEN <<Abort(4116, 0, <<48, 0, 9, 6>>)>> ELSE << <<"stop">> >>]
-    [] l[1] = "nmtreset" -> [ev |-> <<"rx", 0, 2, l[2], NodeId, 0, 0, 0, 0, 0, 0>>, e |-> [ee EXCEPT !.act = {}, !.mode = PREOP], x |-> << <<"free">> >>]   \* emergencies cleared silently
+    \* NMT reset command: emergencies cleared silently (a node that the application holds in INITIALISATION does not listen to NMT commands)
+    [] l[1] = "nmtreset" -> [ev |-> <<"rx", 0, 2, l[2], NodeId, 0, 0, 0, 0, 0, 0>>, e |-> IF ee.mode = INIT THEN ee ELSE [ee EXCEPT !.act = {}, !.mode = PREOP], x |-> << <<"free">> >>]
+    \* CONmtReset called by the application, in any mode (also while the application holds the node in INITIALISATION: it stays there)
+    [] l[1] = "apireset" -> [ev |-> <<"nmt_reset", l[2]>>, e |-> [ee EXCEPT !.act = {}, !.mode = IF ee.mode = INIT THEN INIT ELSE PREOP], x |-> << <<"free">> >>]
     [] l[1] = "mode" -> [ev |-> <<"nmt_set", l[2]>>, e |-> [ee EXCEPT !.mode = l[2]], x |-> <<>>]
 View == e
 Rec(step) == /\ hist' = (IF Walk THEN Append(hist, step) ELSE <<step>>)
@@ -49,7 +52,7 @@ StepOk(e0, l, a) ==
   /\ (l[1] = "set" => Cardinality(txs) = (IF l[2] \notin e0.act /\ EmcyOK(e0.mode) /\ e0.valid THEN 1 ELSE 0))
   /\ (l[1] = "clr" => Cardinality(txs) = (IF l[2] \in e0.act /\ EmcyOK(e0.mode) /\ e0.valid THEN 1 ELSE 0))
   /\ (l[1] = "reset" => Cardinality(txs) = (IF ~l[2] /\ EmcyOK(e0.mode) /\ e0.valid THEN Cardinality(e0.act) ELSE 0))
-  /\ (l[1] = "reset" => a.e.act = {})
+  /\ (l[1] \in {"reset", "apireset"} \/ (l[1] = "nmtreset" /\ e0.mode # INIT) => a.e.act = {})
   /\ TypeOK(a.e)
 Do(l) == LET a == Apply(e, l) IN
          /\ e' = a.e /\ gh' = StepOk(e, l, a)
